@@ -33,10 +33,13 @@ def parseField (s : String) : Option Field :=
 
 def showOptNat : Option Nat → String | some n => toString n | none => "-"
 
+/-- salt / info: `0` is the empty (but supplied) slice, which HKDF treats like none -/
+def showSI : Option Nat → String | some 0 => "-" | some n => toString n | none => "-"
+
 def showLeaf : Leaf → String
   | .plain m => s!"p{m}" | .nilBytes => "nil" | .redacted => "R" | .other => "o"
   | .enc (w, id) m => s!"E{w}/{showOptNat id}:{m}"
-  | .mac (w, id) s i m => s!"M{w}/{showOptNat id}:{showOptNat s}:{showOptNat i}:{m}"
+  | .mac (w, id) s i m => s!"M{w}/{showOptNat id}:{showSI s}:{showSI i}:{m}"
 
 def stepLine (k : Keys) (line : String) : Keys × String :=
   match toks line with
